@@ -70,6 +70,27 @@ extern int  cfg_scan_fp_active(void);
 extern int  cfg_lexer_include_depth(void);
 extern void cfg_lexer_include_unwind(int depth);
 
+/* Store the value token the scanner has just returned.  A value parsing
+ * callback may scan something itself - parse another context, or create one
+ * whose list defaults are parsed - and the scanner's token text does not
+ * survive that: the callback gets a copy. */
+static cfg_value_t *cfg_setopt_token(cfg_t *cfg, cfg_opt_t *opt)
+{
+	cfg_value_t *val;
+	char *tok;
+
+	if (!opt || !opt->parsecb)
+		return cfg_setopt(cfg, opt, cfg_yylval);
+
+	tok = strdup(cfg_yylval);
+	if (!tok)
+		return NULL;
+	val = cfg_setopt(cfg, opt, tok);
+	free(tok);
+
+	return val;
+}
+
 static int cfg_parse_internal(cfg_t *cfg, int level, int force_state, cfg_opt_t *force_opt);
 static void cfg_free_opt_array(cfg_opt_t *opts);
 static int cfg_print_pff_indent(cfg_t *cfg, FILE *fp,
@@ -1580,7 +1601,7 @@ static int cfg_parse_internal(cfg_t *cfg, int level, int force_state, cfg_opt_t 
 				goto error;
 			}
 
-			if (cfg_setopt(cfg, opt, cfg_yylval) == NULL)
+			if (cfg_setopt_token(cfg, opt) == NULL)
 				goto error;
 
 			if (opt && opt->validcb && (*opt->validcb) (cfg, opt) != 0)
@@ -1608,7 +1629,7 @@ static int cfg_parse_internal(cfg_t *cfg, int level, int force_state, cfg_opt_t 
 					goto error;
 				}
 
-				if (cfg_setopt(cfg, opt, cfg_yylval) == NULL)
+				if (cfg_setopt_token(cfg, opt) == NULL)
 					goto error;
 				if (opt && opt->validcb && (*opt->validcb) (cfg, opt) != 0)
 					goto error;
